@@ -37,7 +37,14 @@ thread_local! {
     }).collect();
 }
 
+/// Set by the worker for interpreter passes: generators then use no jets at all (the jet tables are
+/// expensive to build under an interpreter and executing a jet would call into C).
+pub static NO_JETS: std::sync::atomic::AtomicBool = std::sync::atomic::AtomicBool::new(false);
+
 pub fn jets_of(f: Family) -> Vec<JetInfo> {
+    if NO_JETS.load(std::sync::atomic::Ordering::Relaxed) {
+        return vec![];
+    }
     match f {
         Family::None => vec![],
         Family::Core => CORE_JETS.with(|v| v.clone()),
